@@ -54,6 +54,18 @@ CHECKS["C02"] = dict(
     note=_RUN_NOTE + " Programs using libfuncs outside audited.json are run but a VM failure there is only a diagnostic.",
     technique="TLA+ spec SierraRun (Completes/FlowOK/StepBound); TLC trace validation of real VM runs incl. accepted Sierra mutants",
     design_ref="3.3, 5/C02", engine="tlc+cvh")
+CHECKS["C15"] = dict(
+    level="model_checking",
+    text="Every program the real compiler accepts - the corpus and every single-point Sierra mutant (statement delete/dup/swap, "
+         "variable/libfunc/type/branch-target/entry-point edits, signature edits) that ProgramRegistry+metadata+compile still accept - "
+         "is replayed by TLC through the SierraAnnot specification's own typing and linearity pass (argument types = declared types, "
+         "each variable taken exactly once, nothing live at return, return types, merge agreement, branch_align targets, dup/drop only "
+         "for types an independent table allows). Alarm: compile = Ok and the spec rejects. Compiler-rejected mutants are also passed "
+         "through the spec to show every rule fires.",
+    note="Declared libfunc signatures/type declarations come from the real ProgramRegistry; environment (ap tracking, frame state, gas) "
+         "is outside this property; statements no flow reaches are skipped.",
+    technique="TLA+ spec SierraAnnot (compile loop as a state machine with its own typing/linearity rules) run by TLC over exported real programs and accepted mutants",
+    design_ref="3.2, 5/C15", engine="tlc+cvh")
 
 NOT_YET = "check not built yet in this session (see DESIGN.md section 9 build order); no claim is made"
 
